@@ -176,7 +176,7 @@ theorem arith_len (op : ArithOp) (ca cb c : Col) (h : Col.arith op ca cb = .ok c
   unfold arithK at hk
   obtain ⟨h1, h2⟩ := binaryOp_length _ _ _ _ hk
   simp only [Col.len]
-  cases hd : (op == ArithOp.div) <;> simp [hd, safenDividend] at h2 <;> exact ⟨h1, h2⟩
+  cases hd : op.safens <;> simp [hd, safenDividend] at h2 <;> exact ⟨h1, h2⟩
 
 theorem cmpK_len {α} (f : α → α → Bool) (a b : Arr α) (c : Arr Bool) (h : cmpK f a b = .ok c) :
     c.length = a.length ∧ a.length = b.length := by
